@@ -36,6 +36,12 @@ impl Client {
         let mut rng = rand::thread_rng();
         let book = OpeningBook::try_default().unwrap();
         while let Some(Ok(cmd)) = input.next() {
+            #[cfg(weechess_verif)]
+            eprintln!(
+                "verif-state searching={} artifact={}",
+                current_search.is_some(),
+                previous_artifact.is_some()
+            );
             let parts: Vec<&str> = cmd.split_ascii_whitespace().collect();
             match parts.split_first() {
                 Some((&"go", args)) => {
